@@ -430,6 +430,28 @@ func checkValue(c Case) error {
 					}
 				}
 				rec.Label("decoded-from-piecewise-reader")
+				// and from a byte slice the caller goes on using (NewBufDecoder): the decoded value must not live in it
+				{
+					wire := append([]byte(nil), enc...)
+					q := reflect.New(e.Type)
+					d := types.NewBufDecoder(wire)
+					if pp, stack := stats.NoPanic(func() { q.Interface().(types.DecoderFrom).DecodeFrom(d) }); pp != nil {
+						return stats.Failf(key("buf-decoder"), "%s: decoding from a byte slice panicked: %v\n%s", e.Name, pp, stack)
+					}
+					if d.Err() != nil {
+						return stats.Failf(key("buf-decoder"), "%s: decoding its own encoding (%d bytes) from a byte slice failed: %v", e.Name, len(enc), d.Err())
+					}
+					for i := range wire {
+						wire[i] ^= 0xA5
+					}
+					var again bytes.Buffer
+					en := types.NewEncoder(&again)
+					q.Interface().(types.EncoderTo).EncodeTo(en)
+					en.Flush()
+					if !bytes.Equal(again.Bytes(), enc) {
+						return stats.Failf(key("decoded-aliases-input"), "%s: after the byte slice it was decoded from was overwritten, the decoded value encodes differently (byte %d of %d)", e.Name, firstDiff(again.Bytes(), enc), len(enc))
+					}
+				}
 			}
 		}
 	}
@@ -450,7 +472,8 @@ func checkValue(c Case) error {
 	// (1) round trip
 	want := e.Project(v)
 	if len(enc) > 0 || !e.Slow {
-		d, perr := safeDecode(e, enc, v)
+		wire := append([]byte(nil), enc...) // the receive buffer: the caller's, and reused for the next message
+		d, perr := safeDecode(e, wire, v)
 		if perr != nil {
 			return stats.Failf(key("roundtrip"), "%s: decoding its own encoding panicked: %v\n enc %s", e.Name, perr, hx(enc))
 		}
@@ -479,6 +502,13 @@ func checkValue(c Case) error {
 		}
 		if !bytes.Equal(enc3, enc) {
 			return stats.Failf(key("canonical"), "%s: encode(decode(encode(v))) differs at byte %d:\n first  %s\n second %s", e.Name, firstDiff(enc, enc3), hx(enc), hx(enc3))
+		}
+		// (1d) the decoded value does not live in the buffer it was decoded from: the next message overwrites that buffer
+		for i := range wire {
+			wire[i] ^= 0xA5
+		}
+		if enc4, err, panicked := safeEncode(e, d.V); panicked || err != nil || !bytes.Equal(enc4, enc) {
+			return stats.Failf(key("decoded-aliases-input"), "%s: after the buffer it was decoded from was overwritten, the decoded value encodes differently (byte %d of %d; err %v)", e.Name, firstDiff(enc, enc4), len(enc), err)
 		}
 	}
 
